@@ -114,8 +114,15 @@ pub fn run_c16(cx: &Ctx) -> i32 {
                             if c.get(0).is_none() {
                                 return Err("get(0) is None on a successful search".into());
                             }
-                            for i in c.len()..c.len() + 3 {
-                                if c.get(i).is_some() {
+                            // every index >= len: the next three, and the indices at which a
+                                // slot computation (2i, 2i+1) wraps or overflows
+                                let big = [usize::MAX, usize::MAX - 1, usize::MAX / 2, usize::MAX / 2 + 1, usize::MAX / 2 + 2, 1usize << 62, (1usize << 63) + c.len(), u32::MAX as usize, u32::MAX as usize + 1, (1usize << 31) + 1];
+                            for i in (c.len()..c.len() + 3).chain(big.iter().copied()) {
+                                let got = match catch_unwind(AssertUnwindSafe(|| c.get(i).is_some())) {
+                                    Ok(b) => b,
+                                    Err(p) => return Err(format!("get({}) panics ({}) although len() = {}: an index that is not a group must give None", i, engine::panic_msg(p), c.len())),
+                                };
+                                if got {
                                     return Err(format!("get({}) is Some although len() = {}", i, c.len()));
                                 }
                             }
